@@ -246,6 +246,30 @@ func runC01(tier string) int {
 				}
 			}
 		}
+		// AutoVar commands in conditions are script commands too: every shape in which nothing else depends on the condition
+		// (empty bodies, trailing elifs, empty else), loops, and switches on an AutoVar command that contain other switches
+		autoProgs := c01AutoVarPrograms()
+		r.Parallel(uint64(len(autoProgs)), func(w int, i uint64) {
+			p := autoProgs[i]
+			scripts := []*model.Script{p.Script}
+			src := model.Print(scripts)
+			r.Add("programs", 1)
+			r.Add("autovar_programs", 1)
+			for _, opt := range []bool{true, false} {
+				ok, rej, st, v, out := checkScripts(scripts, src, opt, machine.Lazy, &comp.Opts{Cmd: autoCfg})
+				if !ok {
+					r.Report(harness.Violation{Sig: "C01:autovar:rejected:" + firstWords(rej, 5), Summary: fmt.Sprintf("%s rejected: %s\n  source: %q", p.Desc, rej, src), Replay: map[string]interface{}{"source": src, "error": rej}})
+					continue
+				}
+				r.Add("evaluations", 1)
+				r.Add("nontrivial", 1)
+				addStats(r, st)
+				if v != nil {
+					r.Report(harness.Violation{Sig: violationSig("C01", v) + ":autovar", Summary: fmt.Sprintf("%s optimize=%v: %s\n  source: %q", p.Desc, opt, v, src),
+						Replay: map[string]interface{}{"desc": p.Desc, "source": src, "optimize": opt, "reference_next_event": v.A.String(), "emitted_next_event": v.B.String(), "observable_prefix": v.Trace, "emitted_assembly": out}})
+				}
+			}
+		})
 		// labels in dead code (after end / return / break / goto / an infinite loop), directly and inside every kind of block
 		dead := deadLabelPrograms()
 		r.Parallel(uint64(len(dead)), func(w int, i uint64) {
@@ -271,7 +295,7 @@ func runC01(tier string) int {
 		"reference lowering (model/lower.go) = meaning of the README for if/elif/else, while, do...while, break, continue, switch, labels, goto",
 		"operands are distinct per leaf, so every path is feasible (a superset of programs that reuse operands)")
 	return r.Finish(r.Get("evaluations"), r.Get("nontrivial"),
-		"every script body with exactly n nodes of each family (count+unrank, bijective, so cases are distinct by construction) x every goto assignment, plus every sequence of <= L statement templates (25 templates covering every construct), plus the dead-label programs (a label and gotos to it, directly and inside every block kind, after every kind of dead position), plus the sequences of <= L-1 templates with their body, every block, or one statement moved into the selected case of a poryswitch, plus scaled programs (every template repeated K times, every block kind nested K deep, switches with K cases, for every K up to the scale bounds in the coverage), plus two-script files in which gotos cross between the scripts (targets: own labels, a label in the middle of the other script, the other script, an external name), x optimize on/off; each case = full product exploration reference x emitted, all game states closed by a visited set; non-trivial = at least one environment branch point and >= 2 distinct observable events")
+		"every script body with exactly n nodes of each family (count+unrank, bijective, so cases are distinct by construction) x every goto assignment, plus every sequence of <= L statement templates (25 templates covering every construct), plus 11 control-flow shapes whose conditions and switch operands are AutoVar commands (empty bodies, trailing elifs, loops, switches containing switches), plus the dead-label programs (a label and gotos to it, directly and inside every block kind, after every kind of dead position), plus the sequences of <= L-1 templates with their body, every block, or one statement moved into the selected case of a poryswitch, plus scaled programs (every template repeated K times, every block kind nested K deep, switches with K cases, for every K up to the scale bounds in the coverage), plus two-script files in which gotos cross between the scripts (targets: own labels, a label in the middle of the other script, the other script, an external name), x optimize on/off; each case = full product exploration reference x emitted, all game states closed by a visited set; non-trivial = at least one environment branch point and >= 2 distinct observable events")
 }
 
 // c01Shape is a coarse shape tag for findings matching.
@@ -377,4 +401,40 @@ func replayEngine(raw json.RawMessage) error {
 		fmt.Println("passes now")
 	}
 	return nil
+}
+
+// c01AutoVarPrograms: control-flow shapes whose conditions are AutoVar commands (3 command kinds x 3 comparison forms).
+func c01AutoVarPrograms() []engineProgram {
+	var out []engineProgram
+	fl := func(n string) *model.Cond { return mflag(n) }
+	for _, kind := range []int{0, 2, 3} {
+		for _, form := range []int{0, 1, 3} {
+			auto := func(i int) *model.Cond { return &model.Cond{Kind: model.CLeaf, Leaf: autoLeaf(kind, form, i)} }
+			op := func(i int) *model.Leaf { lf := autoLeaf(kind, 0, i); lf.Src = lf.AutoSrc; return lf }
+			ifBreak := model.Stmt{Kind: model.SIf, Arms: []model.Arm{{Cond: fl("B1"), Body: []model.Stmt{{Kind: model.SBreak}}}}}
+			shapes := [][]model.Stmt{
+				{{Kind: model.SIf, Arms: []model.Arm{{Cond: fl("F1"), Body: []model.Stmt{mcmd("c1")}}, {Cond: auto(1), Body: nil}}}},
+				{{Kind: model.SIf, Arms: []model.Arm{{Cond: fl("F1"), Body: []model.Stmt{mcmd("c1")}}, {Cond: auto(1), Body: nil}}, HasElse: true, Else: nil}},
+				{{Kind: model.SIf, Arms: []model.Arm{{Cond: fl("F1"), Body: []model.Stmt{mcmd("c1")}}, {Cond: fl("G1"), Body: nil}, {Cond: auto(1), Body: nil}}}},
+				{{Kind: model.SIf, Arms: []model.Arm{{Cond: auto(1), Body: nil}}}},
+				{{Kind: model.SIf, Arms: []model.Arm{{Cond: &model.Cond{Kind: model.CAnd, L: fl("F1"), R: auto(1)}, Body: nil}}, HasElse: true, Else: nil}},
+				{{Kind: model.SWhile, Cond: auto(1), Body: []model.Stmt{mcmd("c1"), ifBreak}}},
+				{{Kind: model.SDoWhile, Cond: auto(1), Body: []model.Stmt{mcmd("c1"), ifBreak}}},
+				{{Kind: model.SIf, Arms: []model.Arm{{Cond: fl("F1"), Body: []model.Stmt{mcmd("c1")}}}, HasElse: true, Else: []model.Stmt{{Kind: model.SIf, Arms: []model.Arm{{Cond: auto(1), Body: []model.Stmt{mcmd("c2")}}}}}}},
+				{{Kind: model.SSwitch, Operand: op(1), Cases: []model.Case{
+					{Val: 1, Body: []model.Stmt{{Kind: model.SSwitch, Operand: mvar("N1"), Cases: []model.Case{{Val: 5, Body: []model.Stmt{mcmd("c2")}}}}}},
+					{Val: 2, Body: []model.Stmt{mcmd("c3")}}}}},
+				{{Kind: model.SSwitch, Operand: op(1), Cases: []model.Case{
+					{Val: 1, Body: []model.Stmt{mcmd("c1")}},
+					{Default: true, Body: []model.Stmt{{Kind: model.SSwitch, Operand: op(2), Cases: []model.Case{{Val: 3, Body: []model.Stmt{mcmd("c2")}}}}, mcmd("c4")}}}}},
+				{{Kind: model.SWhile, Cond: fl("W1"), Body: []model.Stmt{{Kind: model.SSwitch, Operand: op(1), Cases: []model.Case{
+					{Val: 1, Body: []model.Stmt{{Kind: model.SIf, Arms: []model.Arm{{Cond: auto(2), Body: nil}}}, mcmd("c1")}}}}}}},
+			}
+			for si, body := range shapes {
+				full := append(append([]model.Stmt{mcmd("a")}, body...), mcmd("z"))
+				out = append(out, engineProgram{Desc: fmt.Sprintf("AutoVar shape %d kind=%d form=%d", si, kind, form), Script: &model.Script{Name: "S", Body: full}})
+			}
+		}
+	}
+	return out
 }
